@@ -28,12 +28,19 @@ def main():
         b0 = len(atoms)
         atoms += body
         paths = []
-        for d in data["docs"][:3]:
+        for d in data["docs"]:
             vlib.walk_paths(d["av"], [], 2, paths, True)
-        ckeys = sorted({tuple(p) for p, n in paths if p})
+        def is_coll(node):
+            if node is None:
+                return False
+            nd = node["to"] if node["k"] == "ptr" else node
+            return nd["k"] in ("list", "map")
+        ckeys = sorted({tuple(p) for p, n in paths if p and is_coll(n)})
+        okeys = sorted({tuple(p) for p, n in paths if p and not is_coll(n)})
         rnd.shuffle(ckeys)
+        rnd.shuffle(okeys)
         colls = []
-        for key in ckeys[:(30 if quick else 120)]:
+        for key in ckeys[:(70 if quick else 300)] + okeys[:(10 if quick else 60)]:
             for mode, n1, n2 in (("default", "v", ""), ("index", "k", ""), ("value", "", "v"), ("both", "k", "v")):
                 colls.append({"op": rnd.choice(["any", "all"]), "sel": {"ty": "bexpr", "path": list(key)}, "mode": mode, "n1": n1, "n2": n2})
         world = vlib.make_world([wn], data["docs"], data["cfgs"], cfgsel, atoms, list(range(b0, len(atoms))), colls, 2)
